@@ -19,6 +19,7 @@ RULE = (
     "on exit nothing above the cursor row altered, rows from the cursor row down blank, cursor visible. Non-trivial: >=1 render "
     "that scrolls and >=1 later render."
     ' The caller may keep one list object and edit it in place between renders; terminals up to 24 x 40.'
+    ' Call forms vary as in C02 (cursor_pos omitted, keyword, list; tuple and FSArray arrays with declared widths around the terminal width and ragged rows); terminals down to 1 row and 1 column; malformed control sequences are ignored by the reference terminal as xterm does.'
 )
 ASSUMPTIONS = [
     "reference terminal = xterm semantics (vf/refterm.py), DSR answered from the model's cursor",
